@@ -33,6 +33,16 @@ type c04case struct {
 var forged = []string{"\r\n", "\r\n+OK\r\n", "\r\n:1\r\n", "\r\n$-1\r\n", "\r\n*1\r\n", "x\r\n+OK\r\n-y", "\n", "\r", "\r\n$3\r\nfoo\r\n", "a\r\n\r\n"}
 
 func hostileString(r *rng.R) string {
+	if r.Chance(1, 4) {
+		// every length up to 300 occurs (texts built from it land on every buffer size), CR LF and a forged frame inside
+		n := 4 + r.Intn(297)
+		b := r.From([]byte("abcxyz019 "), n)
+		copy(b[r.Intn(n-3):], "\r\n")
+		if n > 12 {
+			copy(b[r.Intn(n-8):], "\r\n+OK\r\n")
+		}
+		return string(b)
+	}
 	switch r.Intn(5) {
 	case 0:
 		return rng.Pick(r, forged)
